@@ -154,6 +154,7 @@ func TestVerif_C07_Reader(t *testing.T) {
 				return false
 			}
 			total := len(H)
+			R.States++ // one explored configuration: (per-epoch histories, loaded subset)
 			render := func(m EpochToTransactionObjects) ([]c07Entry, string) {
 				// flatten newest epoch first
 				var out []c07Entry
@@ -311,6 +312,8 @@ func TestVerif_C07_Reader(t *testing.T) {
 					}
 				}
 			}
+			R.Transitions = R.Evaluations // every query is one step executed on the real readers
+			R.TracesValidated = R.Evaluations
 			if caseIdx%97 == 0 {
 				R.Sample(map[string]interface{}{"counts": append([]int{}, cv...), "loaded_mask": mask, "history_len": total})
 			}
